@@ -4,6 +4,12 @@ one scratch worktree of /repo HEAD per property, a file with the property's text
 (which gets nothing from /verif; the prompt lists the code sites and ideas earlier rounds used, from seeded/*/).
 The worktrees must be removed afterwards: git -C /repo worktree remove --force <dir>/<Cxx>; git -C /repo worktree prune."""
 import glob, json, os, re, subprocess, sys
+FOCUS = ("Especially welcome: a change whose effect shows only after a LONG or unusual history (many steps, a "
+         "repeated cycle, state left behind by an earlier failure), only at a boundary value (empty, exactly-equal, maximum size, zero delay), only under a "
+         "combination of two unusual configuration values, only when two API objects interact (two watches, two handlers, two observers, observer re-use after "
+         "stop), or one that changes WHICH exception/outcome a documented error path produces")
+if "--focus" in sys.argv:
+    i = sys.argv.index("--focus"); FOCUS = sys.argv[i + 1]; del sys.argv[i:i + 2]
 rd = sys.argv[1].rstrip("/")
 props = {}
 for l in open("/verif/properties.jsonl"):
@@ -30,10 +36,7 @@ for pid in ids:
     if used:
         extra = ("\n\nIMPORTANT extra constraint for this task: earlier attempts already used the following changes - do NOT touch these functions again and do not re-use "
                  "their ideas. Pick a DIFFERENT code site and mechanism that attacks a clause of the STATEMENT (or a combination of configuration values named in "
-                 "QUANTIFIED OVER) that none of them attacked. Especially welcome: a change whose effect shows only after a LONG or unusual history (many steps, a "
-                 "repeated cycle, state left behind by an earlier failure), only at a boundary value (empty, exactly-equal, maximum size, zero delay), only under a "
-                 "combination of two unusual configuration values, only when two API objects interact (two watches, two handlers, two observers, observer re-use after "
-                 "stop), or one that changes WHICH exception/outcome a documented error path produces:\n" + "\n".join(used))
+                 "QUANTIFIED OVER) that none of them attacked. " + FOCUS + ":\n" + "\n".join(used))
     if pid == "C20":
         extra += "\n\n" + 'Hint for this task only: the Windows and macOS modules cannot be imported directly on Linux; a demo may install small stand-ins before importing them (for `watchdog.observers.winapi`: set `ctypes.wintypes.DWORD = ctypes.c_uint32`, provide `ctypes.WinDLL = lambda name: <object whose attributes accept restype/errcheck/argtypes assignments>` and `ctypes.WinError`; for `watchdog.observers.fsevents`: put a module `_watchdog_fsevents` with a `NativeEvent` class (path, inode, flags, event_id and the is_* flag properties) into `sys.modules`; emitters can be driven synchronously through `queue_events(...)` with a plain `queue.Queue`).'
     open(f"{rd}/{pid}.prompt.txt", "w").write(BASE.replace("{RD}", rd).replace("{ID}", pid) + extra + "\n")
